@@ -3,6 +3,8 @@ import re
 
 ID = "C06"
 CRATE = "c06"
+# sibling sources whose edits enlarge the quick correspondence (fingerprints in source_pins.json)
+SOURCES = ["rlib/io/src/reader.rs", "rlib/io/src/writer.rs", "rlib/num_traits/src/lib.rs", "rlib/show/src/lib.rs"]
 COQ_DIR = "C06"
 COQ_DEPS = []
 PROFILES = ["debug", "release"]
